@@ -115,3 +115,24 @@ def jdump(obj, path):
     os.makedirs(os.path.dirname(path), exist_ok=True)
     with open(path, "w") as f:
         json.dump(obj, f, indent=1, default=str)
+
+
+# ---- individuals on the line protocol ------------------------------------------------------
+def ind_tok(genome, fitness) -> str:
+    g = [fr(x) for x in genome]
+    return f"{len(g)} " + " ".join(g) + " " + fit(fitness)
+
+
+def inds_tok(pairs) -> str:
+    """pairs: iterable of (genome, fitness)"""
+    pairs = list(pairs)
+    return f"{len(pairs)}" + "".join(" " + ind_tok(g, f) for g, f in pairs)
+
+
+def pop_pairs(pop):
+    """Population -> list of (genome tuple, fitness)"""
+    return [(tuple(float(x) for x in g), float(f)) for g, f in zip(pop.genomes, pop.fitnesses)]
+
+
+def inds_pairs(inds):
+    return [(tuple(float(x) for x in i.genome), float(i.fitness)) for i in inds]
